@@ -11,7 +11,7 @@ V = os.path.dirname(os.path.dirname(os.path.abspath(__file__)))
 
 def seeds():
     L = ['| seed | file changed | what breaks | caught | by what |', '|---|---|---|---|---|']
-    n_yes = n_after = 0
+    n_yes = n_after = n_other = 0
     for d in sorted(glob.glob(V + '/seeded/*')):
         m = json.load(open(d + '/meta.json'))
         diff = open(d + '/patch.diff').read()
@@ -24,13 +24,17 @@ def seeds():
         if c.startswith('yes'):
             n_yes += 1
             c1 = 'quick'
+        elif c.startswith('no'):
+            n_other += 1
+            c1 = 'NOT by this property\'s check'
         else:
             n_after += 1
             c1 = 'quick, after strengthening'
         L.append('| %s | %s | %s | %s | %s |' % (os.path.basename(d), ', '.join(os.path.basename(x) for x in files), br[:120].replace('|', '/'), c1,
                                                m['needs_to_manifest'][:200].replace('|', '/').replace('\n', ' ')))
     L.append('')
-    L.append('%d seeded changes: %d caught by the check as it stood, %d after the generator or check was strengthened.' % (n_yes + n_after, n_yes, n_after))
+    L.append('%d seeded changes: %d caught by the check as it stood, %d after the generator or check was strengthened, %d not caught by the check of the property they were written for '
+             '(see the last column).' % (n_yes + n_after + n_other, n_yes, n_after, n_other))
     return '\n'.join(L)
 
 
